@@ -9,6 +9,7 @@ PROP = {
              "GetFlow; unit 2 writes the same filters as flow YAML, loads them with the real loader and reads the executed flows from the processor events. "
              "Non-trivial: >=2 configured patterns match the URL under the permissive reading. distinct = canonical JSON of flows+orders+transactions"),
     "assumptions": [
+        "a required query parameter has the value '1', '2' or the empty value (a flag-style parameter: the key must be present, as '?q=' or '?q'); requests carry q=1|2|3, 'q=', a bare 'q', a query string without the key (page=2, Q=1, qq=1&page=) or none at all - a filter's query constraint holds only if the key is present and its first value is the required one",
         "required and sent header values come from one pool of letter-case variants, including spellings that are equal without regard to case although their UTF-8 lengths differ (stra\u00dfe / STRA\u1e9eE, 300k / 300 + Kelvin sign, \u017ft / ST) and near misses (strasse); header values are compared without regard to letter case, as the engine documents and implements (strings.EqualFold)",
         "the gateway's log level (LOG_LEVEL: off in three cases of eight, else error / info / debug / trace; what is logged is thrown away, what a log statement does to build its arguments happens) is a generated part of every case of TestFilterTreeSelection and TestEngineSelectionE2E: no answer may depend on it; a failing case reports its level",
         "unit TestSelectionThroughHandler: request transactions arrive as SPOE messages through routing.Handler of a real HandlingDataManager (the decoding of the message arguments is under test); the headers argument has the proxy's dump format (a CRLF-terminated line per header plus the closing empty line), with the constrained header also in upper case, on two lines with one value, or on two lines with different values (then flows that constrain it are not judged)",
